@@ -722,6 +722,18 @@ TIterWalk ==
   /\ Step(FALSE, "")
   /\ UNCHANGED <<coreVars, runInfo, keep, lastIter, manNo, isOpen, flushed, gpins, deferred, ackStore, inflight>>
 
+\* a random walk on a fresh iterator at the latest sequence or at a snapshot
+TFreshWalk ==
+  /\ IsEv("FreshWalk")
+  /\ LET s == IF Ev.at = -1 THEN seq ELSE Ev.at
+         vis == Visible(hist, s, nk) IN
+     JudgeAnd(IF FaultMode \/ WalkOK(vis, Ev.steps, 1, 0) THEN <<>>
+              ELSE ObsViol(<<"C04">> \o (IF Ev.at = -1 THEN <<>> ELSE <<"C03">>), "FreshWalkWrong",
+                           [keys |-> <<>>, at |-> s]))
+  /\ Step(FALSE, "")
+  /\ UNCHANGED <<coreVars, runInfo, keep, lastIter, manNo, isOpen, flushed, gpins, deferred,
+                 ackStore, inflight>>
+
 ---------------------------------------------------------------------------
 (* quiescent dumps: bind the reconstructed state to the real one and judge the shape *)
 
@@ -779,7 +791,7 @@ TraceNext ==
   \/ TCommit \/ TRotate \/ TEdit \/ TFlushBuilt \/ TImmDropped \/ TPicked \/ TOutputOpened \/ TCompactionDone
   \/ TSnapshot \/ TRelease \/ TIterNew \/ TIterDrop \/ TIterDropped \/ TIterKeep
   \/ TGetCapture \/ TGetDone \/ TObsoleteCollected
-  \/ TObs \/ TObsFault \/ TDisarm \/ TIterObs \/ TIterWalk \/ TDump \/ THang \/ TPanic
+  \/ TObs \/ TObsFault \/ TDisarm \/ TFreshWalk \/ TIterObs \/ TIterWalk \/ TDump \/ THang \/ TPanic
 
 TraceSpec == TraceInit /\ [][TraceNext]_allVars
 
